@@ -80,7 +80,7 @@ def rule_E7(ctx, functions=None, only_keys=None):
     prog = ctx.prog
     acc = optional_accessors(prog)
     res.facts["optional_accessors"] = sorted(f.qualname for f in acc.values())
-    reviewed = {(e["function"], e["construct"]): e for e in load_reviewed()}
+    reviewed = {e["construct"]: e for e in load_reviewed()}
     used_reviews = set()
     for f in prog.all_functions():
         if f.module.short not in SCOPE:
@@ -110,13 +110,13 @@ def rule_E7(ctx, functions=None, only_keys=None):
                 if d.lineno == end and not textually_before(n, d):
                     continue
                 atoms = fg.atoms(d)
-                con = "%s := %s(); %s" % (var, cn, norm_src(_stmt(d)))
+                con = "result of %s(): %s" % (cn, norm_src(_stmt(d)))
                 inst = (f.qualname, con)
                 if _presence(atoms, var):
                     res.holds(inst)
-                elif (f.qualname, con) in reviewed:
-                    used_reviews.add((f.qualname, con))
-                    res.holds(inst, "reviewed: " + reviewed[(f.qualname, con)]["reason"])
+                elif con in reviewed:
+                    used_reviews.add(con)
+                    res.holds(inst, "reviewed: " + reviewed[con]["reason"])
                 else:
                     res.violated(inst, Finding(
                         "E7", f.file, f.qualname, con,
@@ -144,7 +144,7 @@ def rule_E7(ctx, functions=None, only_keys=None):
                 continue
             fg = fg or FuncGuards(prog, f)
             atoms = fg.atoms(n)
-            con = "%s[%r] in %s" % (var, key, norm_src(_stmt(n)))
+            con = "key %r: %s" % (key, norm_src(_stmt(n)))
             inst = (f.qualname, con)
             present = any(
                 (a[0] == "in" and a[1] == repr(key) and a[2] == ("src", var))
@@ -154,9 +154,9 @@ def rule_E7(ctx, functions=None, only_keys=None):
             stored = _dominating_store(f, n, var, key)
             if present or stored:
                 res.holds(inst)
-            elif (f.qualname, con) in reviewed:
-                used_reviews.add((f.qualname, con))
-                res.holds(inst, "reviewed: " + reviewed[(f.qualname, con)]["reason"])
+            elif con in reviewed:
+                used_reviews.add(con)
+                res.holds(inst, "reviewed: " + reviewed[con]["reason"])
             else:
                 res.violated(inst, Finding(
                     "E7", f.file, f.qualname, con,
@@ -257,7 +257,7 @@ def rule_U1(ctx):
                            "tasks only under a has_task / membership guard")
     prog = ctx.prog
     cls = prog.cls("specs.native.v1.models.TaskMappingSpec")
-    reviewed = {(e["function"], e["construct"]): e for e in load_reviewed()}
+    reviewed = {e["construct"]: e for e in load_reviewed()}
     # functions reachable from inspection entry points of the class
     roots = [m for name, m in cls.methods.items()
              if name.startswith("detect_") or name.startswith("inspect_")]
@@ -295,8 +295,8 @@ def rule_U1(ctx):
                 for a in atoms)
             if guarded:
                 res.holds(inst)
-            elif (f.qualname, con) in reviewed:
-                res.holds(inst, "reviewed: " + reviewed[(f.qualname, con)]["reason"])
+            elif con in reviewed:
+                res.holds(inst, "reviewed: " + reviewed[con]["reason"])
             else:
                 res.violated(inst, Finding(
                     "U1", f.file, f.qualname, con,
